@@ -101,6 +101,52 @@ theorem decodeRune_ascii (a : Array UInt8) (i : Nat) :
   · exact Or.inl rfl
 
 
+/-- a decoded rune below 0x80 is the byte at that place -/
+theorem decodeRune_small (a : Array UInt8) (i : Nat) :
+    (decodeRune a i).1 < 128 → (decodeRune a i).1 = byteAt a i := by
+  have b1 := byteAt_lt a (i + 1)
+  have lo := acceptLo_spec (byteAt a i)
+  have hi := acceptHi_le (byteAt a i)
+  unfold decodeRune
+  simp only [runeError]
+  split
+  · (intro h; first | rfl | (simp only at h; omega))
+  split
+  · (intro h; first | rfl | (simp only at h; omega))
+  split
+  · split
+    · (intro h; first | rfl | (simp only at h; omega))
+    split
+    · (intro h; first | rfl | (simp only at h; omega))
+    · intro h; simp only at h; omega
+  split
+  · split
+    · (intro h; first | rfl | (simp only at h; omega))
+    split
+    · (intro h; first | rfl | (simp only at h; omega))
+    split
+    · (intro h; first | rfl | (simp only at h; omega))
+    · intro h; simp only at h
+      by_cases h224 : byteAt a i = 224
+      · have := lo.2.1 h224; omega
+      · omega
+  split
+  · split
+    · (intro h; first | rfl | (simp only at h; omega))
+    split
+    · (intro h; first | rfl | (simp only at h; omega))
+    split
+    · (intro h; first | rfl | (simp only at h; omega))
+    split
+    · (intro h; first | rfl | (simp only at h; omega))
+    · intro h; simp only at h
+      by_cases h240 : byteAt a i = 240
+      · have := lo.2.2 h240; omega
+      · omega
+  · (intro h; first | rfl | (simp only at h; omega))
+
+
+
 /-! ### items whose value the parser slices -/
 
 /-- `tok.val[1:]` is taken of these -/
@@ -121,6 +167,11 @@ def Lexer.bad (l : Lexer) : Nat := (l.items.toList.filter (fun it => !itemOK it)
 
 /-- the same count over all items but the last -/
 def Lexer.badInit (l : Lexer) : Nat := (l.items.toList.dropLast.filter (fun it => !itemOK it)).length
+
+/-- 1 unless `tagStart` is at a `{` of the input (or still 0): where `errorfAt(l.tagStart, …)`
+    reports an unclosed tag -/
+def Lexer.tagBad (l : Lexer) : Nat :=
+  if l.tagStart = 0 ∨ byteAt l.input l.tagStart.toNat = 123 then 0 else 1
 
 /-- emitting a token of type `t` with `n` bytes is fine -/
 def emitOK (t : ItemType) (n : Int) : Prop :=
@@ -151,6 +202,12 @@ theorem emitOK_safe {t : ItemType} {n : Int} (h1 : sliced1 t = false) (h2 : slic
 @[simp] theorem backup_bad (l : Lexer) : l.backup.bad = l.bad := rfl
 @[simp] theorem ignore_bad (l : Lexer) : l.ignore.bad = l.bad := rfl
 @[simp] theorem addPos_bad (l : Lexer) (d : Int) : (l.addPos d).bad = l.bad := rfl
+@[simp] theorem backup_input (l : Lexer) : l.backup.input = l.input := rfl
+@[simp] theorem ignore_input (l : Lexer) : l.ignore.input = l.input := rfl
+@[simp] theorem addPos_input (l : Lexer) (d : Int) : (l.addPos d).input = l.input := rfl
+@[simp] theorem backup_tagBad (l : Lexer) : l.backup.tagBad = l.tagBad := rfl
+@[simp] theorem ignore_tagBad (l : Lexer) : l.ignore.tagBad = l.tagBad := rfl
+@[simp] theorem addPos_tagBad (l : Lexer) (d : Int) : (l.addPos d).tagBad = l.tagBad := rfl
 @[simp] theorem backup_items (l : Lexer) : l.backup.items = l.items := rfl
 @[simp] theorem ignore_items (l : Lexer) : l.ignore.items = l.items := rfl
 @[simp] theorem addPos_items (l : Lexer) (d : Int) : (l.addPos d).items = l.items := rfl
@@ -189,18 +246,18 @@ def NextFacts (l : Lexer) (r : Int) (l' : Lexer) : Prop :=
     (128 ≤ r ∨ l'.width = 1))
 
 theorem next_sat {l : Lexer} {Q : Int × Lexer → Prop} (h0 : 0 ≤ l.pos)
-    (hq : ∀ r l', (l'.len = l.len ∧ l'.mp = l.mp ∧ l'.tagStart = l.tagStart ∧ l'.bad = l.bad) → l'.start = l.start → NextFacts l r l' → Q (r, l')) :
+    (hq : ∀ r l', (l'.len = l.len ∧ l'.mp = l.mp ∧ l'.tagStart = l.tagStart ∧ l'.bad = l.bad ∧ l'.tagBad = l.tagBad ∧ l'.input = l.input) → l'.start = l.start → NextFacts l r l' → Q (r, l')) :
     Sat l.next Q := by
   unfold Lexer.next
   split
-  · exact ⟨_, rfl, hq _ _ ⟨rfl, rfl, rfl, rfl⟩ rfl (Or.inl ⟨by assumption, rfl, rfl, rfl⟩)⟩
+  · exact ⟨_, rfl, hq _ _ ⟨rfl, rfl, rfl, rfl, rfl, rfl⟩ rfl (Or.inl ⟨by assumption, rfl, rfl, rfl⟩)⟩
   · rename_i h1
     rw [if_neg (by omega)]
     simp only [Lexer.len] at h1
     have hlt : l.pos.toNat < l.input.size := by omega
     have hw := decodeRune_width l.input l.pos.toNat hlt
     have ha := decodeRune_ascii l.input l.pos.toNat
-    refine ⟨_, rfl, hq _ _ ⟨rfl, rfl, rfl, rfl⟩ rfl (Or.inr ⟨?_, ?_, ?_, ?_, ?_, ?_⟩)⟩
+    refine ⟨_, rfl, hq _ _ ⟨rfl, rfl, rfl, rfl, rfl, rfl⟩ rfl (Or.inr ⟨?_, ?_, ?_, ?_, ?_, ?_⟩)⟩
     · simp only [Lexer.len]; omega
     · exact Int.natCast_nonneg _
     · show (1 : Int) ≤ ((decodeRune l.input l.pos.toNat).2 : Int); omega
@@ -210,12 +267,35 @@ theorem next_sat {l : Lexer} {Q : Int × Lexer → Prop} (h0 : 0 ≤ l.pos)
           (((decodeRune l.input l.pos.toNat).2 : Nat) : Int) = 1
       omega
 
+/-- a rune below 0x80 that `next` returns is the byte at the position it was read from -/
+theorem next_content {l l' : Lexer} {r : Int} (h : l.next = some (r, l')) (hr0 : 0 ≤ r) (hr : r < 128) :
+    (byteAt l.input l.pos.toNat : Int) = r := by
+  unfold Lexer.next at h
+  split at h
+  · simp only [Option.some.injEq, Prod.mk.injEq] at h
+    have := h.1; simp only [eof] at this; omega
+  · split at h
+    · exact absurd h (by simp)
+    · simp only [Option.some.injEq, Prod.mk.injEq] at h
+      have h1 := h.1
+      have := decodeRune_small l.input l.pos.toNat (by omega)
+      omega
+
+/-- `next_sat` with the content of the rune read -/
+theorem next_sat_c {l : Lexer} {Q : Int × Lexer → Prop} (h0 : 0 ≤ l.pos)
+    (hq : ∀ r l', (l'.len = l.len ∧ l'.mp = l.mp ∧ l'.tagStart = l.tagStart ∧ l'.bad = l.bad ∧ l'.tagBad = l.tagBad ∧ l'.input = l.input) → l'.start = l.start → NextFacts l r l' →
+      (0 ≤ r → r < 128 → (byteAt l.input l.pos.toNat : Int) = r) → Q (r, l')) :
+    Sat l.next Q := by
+  obtain ⟨⟨r, l'⟩, hn, hl, hs, hf⟩ := next_sat (Q := fun x => (x.2.len = l.len ∧ x.2.mp = l.mp ∧ x.2.tagStart = l.tagStart ∧ x.2.bad = l.bad ∧ x.2.tagBad = l.tagBad ∧ x.2.input = l.input) ∧ x.2.start = l.start ∧ NextFacts l x.1 x.2) h0
+    (fun _ _ a b c => ⟨a, b, c⟩)
+  exact ⟨_, hn, hq r l' hl hs hf (fun a b => next_content hn a b)⟩
+
 theorem next_isSome {l : Lexer} (h0 : 0 ≤ l.pos) : ∃ r l', l.next = some (r, l') := by
   obtain ⟨⟨r, l'⟩, h, _⟩ := next_sat (Q := fun _ => True) h0 (fun _ _ _ _ _ => trivial)
   exact ⟨r, l', h⟩
 
 theorem peek_sat {l : Lexer} {Q : Int × Lexer → Prop} (h0 : 0 ≤ l.pos)
-    (hq : ∀ r l', (l'.len = l.len ∧ l'.mp = l.mp ∧ l'.tagStart = l.tagStart ∧ l'.bad = l.bad) → l'.start = l.start → l'.pos = l.pos →
+    (hq : ∀ r l', (l'.len = l.len ∧ l'.mp = l.mp ∧ l'.tagStart = l.tagStart ∧ l'.bad = l.bad ∧ l'.tagBad = l.tagBad ∧ l'.input = l.input) → l'.start = l.start → l'.pos = l.pos →
       ((l.len ≤ l.pos ∧ r = -1 ∧ l'.width = 0) ∨
        (l.pos < l.len ∧ 0 ≤ r ∧ 1 ≤ l'.width ∧ l.pos + l'.width ≤ l.len ∧ (128 ≤ r ∨ l'.width = 1))) →
       Q (r, l')) :
@@ -236,7 +316,7 @@ theorem peek_sat {l : Lexer} {Q : Int × Lexer → Prop} (h0 : 0 ≤ l.pos)
 
 theorem emit_sat {l : Lexer} {t : ItemType} {Q : Lexer → Prop}
     (h0 : 0 ≤ l.start) (h1 : l.start ≤ l.pos) (h2 : l.pos ≤ l.len) (hok : emitOK t (l.pos - l.start))
-    (hq : ∀ l', (l'.len = l.len ∧ l.mp ≤ l'.mp ∧ ((l'.mp : Int) = l.mp ∨ (l'.mp : Int) = l.pos) ∧ l'.tagStart = l.tagStart ∧ l'.bad = l.bad) →
+    (hq : ∀ l', (l'.len = l.len ∧ l.mp ≤ l'.mp ∧ ((l'.mp : Int) = l.mp ∨ (l'.mp : Int) = l.pos) ∧ l'.tagStart = l.tagStart ∧ l'.bad = l.bad ∧ l'.tagBad = l.tagBad ∧ l'.input = l.input) →
       l'.pos = l.pos → l'.start = l.pos → l'.width = l.width → Q l') :
     Sat (l.emit t) Q := by
   unfold Lexer.emit
@@ -244,7 +324,7 @@ theorem emit_sat {l : Lexer} {t : ItemType} {Q : Lexer → Prop}
   unfold sliceOf
   simp only [Lexer.len] at h2
   rw [if_pos ⟨h0, h1, h2⟩]
-  refine ⟨_, rfl, hq _ ⟨rfl, ?_, ?_, rfl, ?_⟩ rfl rfl rfl⟩
+  refine ⟨_, rfl, hq _ ⟨rfl, ?_, ?_, rfl, ?_, rfl, rfl⟩ rfl rfl rfl⟩
   · simp only [mp_push]; omega
   · simp only [mp_push]; omega
   · apply bad_push
@@ -261,14 +341,14 @@ theorem emit_sat {l : Lexer} {t : ItemType} {Q : Lexer → Prop}
 /-- `l.emit(itemEOF)`: the one emit after which the scan ends -/
 theorem emit_eof_ex {l : Lexer} (h0 : 0 ≤ l.start) (h1 : l.start ≤ l.pos) (h2 : l.pos ≤ l.len) :
     ∃ l', l.emit .tEOF = some l' ∧ (l.mp ≤ l'.mp ∧ ((l'.mp : Int) = l.mp ∨ (l'.mp : Int) = l.pos)) ∧
-      l'.badInit = l.bad ∧ (∃ it, l'.items.back? = some it ∧ it.typ = .tEOF) := by
+      l'.badInit = l.bad ∧ (∃ it, l'.items.back? = some it ∧ it.typ = .tEOF) ∧ l'.input = l.input := by
   unfold Lexer.emit
   simp only [if_neg (show ¬ l.pos > l.len by omega)]
   unfold sliceOf
   simp only [Lexer.len] at h2
   rw [if_pos ⟨h0, h1, h2⟩]
   refine ⟨_, rfl, ⟨?_, ?_⟩, badInit_push _ _ _ _,
-    ⟨{ typ := .tEOF, pos := l.pos.toNat, val := (l.input.extract l.start.toNat l.pos.toNat).toList }, by simp, rfl⟩⟩
+    ⟨{ typ := .tEOF, pos := l.pos.toNat, val := (l.input.extract l.start.toNat l.pos.toNat).toList }, by simp, rfl⟩, rfl⟩
   · simp only [mp_push]; omega
   · simp only [mp_push]; omega
 
@@ -280,7 +360,7 @@ def ScanFacts (l : Lexer) (r : Int) (l' : Lexer) : Prop :=
 
 theorem scanWhile_sat (p : Int → Bool) (hp : p eof = false) (l : Lexer) {Q : Int × Lexer → Prop}
     (h0 : 0 ≤ l.pos) (h1 : l.pos ≤ l.len)
-    (hq : ∀ r l', (l'.len = l.len ∧ l'.mp = l.mp ∧ l'.tagStart = l.tagStart ∧ l'.bad = l.bad) → l'.start = l.start → p r = false → ScanFacts l r l' → Q (r, l')) :
+    (hq : ∀ r l', (l'.len = l.len ∧ l'.mp = l.mp ∧ l'.tagStart = l.tagStart ∧ l'.bad = l.bad ∧ l'.tagBad = l.tagBad ∧ l'.input = l.input) → l'.start = l.start → p r = false → ScanFacts l r l' → Q (r, l')) :
     Sat (scanWhile p hp l) Q := by
   induction l using scanWhile.induct p hp with
   | case1 l hn =>
@@ -295,7 +375,7 @@ theorem scanWhile_sat (p : Int → Bool) (hp : p eof = false) (l : Lexer) {Q : I
       simp only [Option.some.injEq, Prod.mk.injEq] at heq
       obtain ⟨rfl, rfl⟩ := heq
       simp only [hr, dite_true]
-      obtain ⟨_, hn', hl, hs, hf⟩ := next_sat (Q := fun x => (x.2.len = l.len ∧ x.2.mp = l.mp ∧ x.2.tagStart = l.tagStart ∧ x.2.bad = l.bad) ∧ x.2.start = l.start ∧ NextFacts l x.1 x.2) h0
+      obtain ⟨_, hn', hl, hs, hf⟩ := next_sat (Q := fun x => (x.2.len = l.len ∧ x.2.mp = l.mp ∧ x.2.tagStart = l.tagStart ∧ x.2.bad = l.bad ∧ x.2.tagBad = l.tagBad ∧ x.2.input = l.input) ∧ x.2.start = l.start ∧ NextFacts l x.1 x.2) h0
         (fun _ _ a b c => ⟨a, b, c⟩)
       rw [hn] at hn'
       simp only [Option.some.injEq] at hn'
@@ -306,7 +386,7 @@ theorem scanWhile_sat (p : Int → Bool) (hp : p eof = false) (l : Lexer) {Q : I
       unfold NextFacts at hf
       apply ih (by omega) (by omega)
       intro r l' hl' hs' hpr hsf
-      apply hq r l' ⟨hl'.1.trans hl.1, hl'.2.1.trans hl.2.1, hl'.2.2.1.trans hl.2.2.1, hl'.2.2.2.trans hl.2.2.2⟩ (hs'.trans hs) hpr
+      apply hq r l' ⟨hl'.1.trans hl.1, hl'.2.1.trans hl.2.1, hl'.2.2.1.trans hl.2.2.1, hl'.2.2.2.1.trans hl.2.2.2.1, hl'.2.2.2.2.1.trans hl.2.2.2.2.1, hl'.2.2.2.2.2.trans hl.2.2.2.2.2⟩ (hs'.trans hs) hpr
       unfold ScanFacts at hsf ⊢
       rw [hl.1] at hsf
       omega
@@ -319,7 +399,7 @@ theorem scanWhile_sat (p : Int → Bool) (hp : p eof = false) (l : Lexer) {Q : I
       simp only [Option.some.injEq, Prod.mk.injEq] at heq
       obtain ⟨rfl, rfl⟩ := heq
       simp only [hr, dite_false]
-      obtain ⟨_, hn', hl, hs, hf⟩ := next_sat (Q := fun x => (x.2.len = l.len ∧ x.2.mp = l.mp ∧ x.2.tagStart = l.tagStart ∧ x.2.bad = l.bad) ∧ x.2.start = l.start ∧ NextFacts l x.1 x.2) h0
+      obtain ⟨_, hn', hl, hs, hf⟩ := next_sat (Q := fun x => (x.2.len = l.len ∧ x.2.mp = l.mp ∧ x.2.tagStart = l.tagStart ∧ x.2.bad = l.bad ∧ x.2.tagBad = l.tagBad ∧ x.2.input = l.input) ∧ x.2.start = l.start ∧ NextFacts l x.1 x.2) h0
         (fun _ _ a b c => ⟨a, b, c⟩)
       rw [hn] at hn'
       simp only [Option.some.injEq] at hn'
@@ -332,7 +412,7 @@ theorem scanWhile_sat (p : Int → Bool) (hp : p eof = false) (l : Lexer) {Q : I
 
 
 theorem accept_sat {l : Lexer} {valid : List Int} {Q : Bool × Lexer → Prop} (h0 : 0 ≤ l.pos) (h1 : l.pos ≤ l.len)
-    (hq : ∀ b l', (l'.len = l.len ∧ l'.mp = l.mp ∧ l'.tagStart = l.tagStart ∧ l'.bad = l.bad) → l'.start = l.start → l.pos ≤ l'.pos →
+    (hq : ∀ b l', (l'.len = l.len ∧ l'.mp = l.mp ∧ l'.tagStart = l.tagStart ∧ l'.bad = l.bad ∧ l'.tagBad = l.tagBad ∧ l'.input = l.input) → l'.start = l.start → l.pos ≤ l'.pos →
       l'.pos ≤ l.len → (b = true → l.pos < l'.pos) → Q (b, l')) :
     Sat (accept l valid) Q := by
   unfold accept
@@ -352,7 +432,7 @@ theorem accept_sat {l : Lexer} {valid : List Int} {Q : Bool × Lexer → Prop} (
       first | omega | (intro h; cases h)
 
 theorem acceptRun_sat {l : Lexer} {valid : List Int} {Q : Bool × Lexer → Prop} (h0 : 0 ≤ l.pos) (h1 : l.pos ≤ l.len)
-    (hq : ∀ b l', (l'.len = l.len ∧ l'.mp = l.mp ∧ l'.tagStart = l.tagStart ∧ l'.bad = l.bad) → l'.start = l.start → l.pos ≤ l'.pos →
+    (hq : ∀ b l', (l'.len = l.len ∧ l'.mp = l.mp ∧ l'.tagStart = l.tagStart ∧ l'.bad = l.bad ∧ l'.tagBad = l.tagBad ∧ l'.input = l.input) → l'.start = l.start → l.pos ≤ l'.pos →
       l'.pos ≤ l.len → (b = true → l.pos < l'.pos) → Q (b, l')) :
     Sat (acceptRun l valid) Q := by
   unfold acceptRun
@@ -367,7 +447,7 @@ theorem acceptRun_sat {l : Lexer} {valid : List Int} {Q : Bool × Lexer → Prop
   · simp only [backup_pos]; intro h; have h := of_decide_eq_true h; omega
 
 theorem skipSpace_sat {l : Lexer} {Q : Lexer → Prop} (h0 : 0 ≤ l.pos) (h1 : l.pos ≤ l.len)
-    (hq : ∀ l', (l'.len = l.len ∧ l'.mp = l.mp ∧ l'.tagStart = l.tagStart ∧ l'.bad = l.bad) → l'.start = l'.pos → l.pos ≤ l'.pos →
+    (hq : ∀ l', (l'.len = l.len ∧ l'.mp = l.mp ∧ l'.tagStart = l.tagStart ∧ l'.bad = l.bad ∧ l'.tagBad = l.tagBad ∧ l'.input = l.input) → l'.start = l'.pos → l.pos ≤ l'.pos →
       l'.pos ≤ l.len → Q l') :
     Sat (skipSpace l) Q := by
   unfold skipSpace
@@ -381,7 +461,7 @@ theorem skipSpace_sat {l : Lexer} {Q : Lexer → Prop} (h0 : 0 ≤ l.pos) (h1 : 
   · simp only [ignore_pos, backup_pos]; omega
 
 theorem badDoubleClose_sat {l : Lexer} {Q : Bool × Lexer → Prop} (h0 : 0 ≤ l.pos) (h1 : l.pos ≤ l.len)
-    (hq : ∀ b l', (l'.len = l.len ∧ l'.mp = l.mp ∧ l'.tagStart = l.tagStart ∧ l'.bad = l.bad) → l'.start = l.start → l.pos ≤ l'.pos →
+    (hq : ∀ b l', (l'.len = l.len ∧ l'.mp = l.mp ∧ l'.tagStart = l.tagStart ∧ l'.bad = l.bad ∧ l'.tagBad = l.tagBad ∧ l'.input = l.input) → l'.start = l.start → l.pos ≤ l'.pos →
       l'.pos ≤ l.len → Q (b, l')) :
     Sat (badDoubleClose l) Q := by
   unfold badDoubleClose
@@ -393,14 +473,14 @@ theorem badDoubleClose_sat {l : Lexer} {Q : Bool × Lexer → Prop} (h0 : 0 ≤ 
     apply Sat.ret
     apply hq _ l' hl hs <;> omega
   · apply Sat.ret
-    apply hq _ l ⟨rfl, rfl, rfl, rfl⟩ rfl <;> omega
+    apply hq _ l ⟨rfl, rfl, rfl, rfl, rfl, rfl⟩ rfl <;> omega
 
 /-- `maybeEmitText(l, k)` for `0 ≤ k`, on a lexer whose pending text `[start, pos-k)` is inside the input -/
 theorem maybeEmitText_sat {l : Lexer} {k : Int} {Q : Lexer → Prop}
     (hs0 : 0 ≤ l.start) (hk : 0 ≤ k) (hp : l.pos - k ≤ l.len)
-    (hq : ∀ l', (l'.len = l.len ∧ l.mp ≤ l'.mp ∧ ((l'.mp : Int) = l.mp ∨ (l'.mp : Int) = l.pos - k) ∧ l'.tagStart = l.tagStart ∧ l'.bad = l.bad) →
+    (hq : ∀ l', (l'.len = l.len ∧ l.mp ≤ l'.mp ∧ ((l'.mp : Int) = l.mp ∨ (l'.mp : Int) = l.pos - k) ∧ l'.tagStart = l.tagStart ∧ l'.bad = l.bad ∧ l'.tagBad = l.tagBad ∧ l'.input = l.input) →
       l'.pos = l.pos → l'.width = l.width →
-      (l'.start = l.start ∨ (l.start < l.pos - k ∧ l'.start = l.pos - k)) → Q l') :
+      ((l'.start = l.start ∧ l.pos - k ≤ l.start) ∨ (l.start < l.pos - k ∧ l'.start = l.pos - k)) → Q l') :
     Sat (maybeEmitText l k) Q := by
   unfold maybeEmitText
   split
@@ -420,20 +500,31 @@ theorem maybeEmitText_sat {l : Lexer} {k : Int} {Q : Lexer → Prop}
           (by simp only [addPos_pos, addPos_len]; simp only [Lexer.len]; omega) (emitOK_safe rfl rfl)
         intro l' hl hp' hs' hw
         simp only [addPos_pos, addPos_len, addPos_width] at hl hp' hs' hw
-        simp only [addPos_mp, addPos_tagStart, addPos_bad] at hl
-        apply hq _ (by simp only [addPos_len, addPos_mp, addPos_tagStart, addPos_bad]; omega) (by simp only [addPos_pos, hp']; omega) (by simp [hw])
+        simp only [addPos_mp, addPos_tagStart, addPos_bad, addPos_tagBad, addPos_input] at hl
+        apply hq _ (by simp only [addPos_len, addPos_mp, addPos_tagStart, addPos_bad, addPos_tagBad, addPos_input]; exact ⟨by omega, by omega, by omega, by omega, by omega, by omega, hl.2.2.2.2.2.2⟩) (by simp only [addPos_pos, hp']; omega) (by simp [hw])
         right; simp only [addPos_start, hs']; omega
     obtain ⟨a, ha, hqa⟩ := key
     rw [ha]
     exact ⟨_, rfl, hqa⟩
   · apply Sat.ofSome
-    exact hq l ⟨rfl, Nat.le_refl _, Or.inl rfl, rfl, rfl⟩ rfl rfl (Or.inl rfl)
+    exact hq l ⟨rfl, Nat.le_refl _, Or.inl rfl, rfl, rfl, rfl, rfl⟩ rfl rfl (Or.inl ⟨rfl, by omega⟩)
 
 /-! ## The invariant and the progress measure -/
 
 /-- invariant at state boundaries: the pending token `[start, pos)` lies inside the input -/
 def Good (n : Int) (l : Lexer) : Prop :=
-  (l.len = n ∧ (l.mp : Int) ≤ n ∧ 0 ≤ l.tagStart ∧ l.tagStart ≤ n ∧ l.bad = 0) ∧ 0 ≤ l.start ∧ l.start ≤ l.pos ∧ l.pos ≤ n
+  (l.len = n ∧ (l.mp : Int) ≤ n ∧ 0 ≤ l.tagStart ∧ l.tagStart ≤ n ∧ l.bad = 0 ∧ l.tagBad = 0) ∧ 0 ≤ l.start ∧ l.start ≤ l.pos ∧ l.pos ≤ n
+
+/-- what else holds on entry to a state: the tag states begin with nothing pending
+    (`start = pos`), `lexLeftDelim` stands at the `{` that `lexText` saw, and `lexString q` has
+    just read its opening quote `q` -/
+def Extra (s : St) (l : Lexer) : Prop :=
+  match s with
+  | .leftDelim => l.start = l.pos ∧ byteAt l.input l.pos.toNat = 123
+  | .beginTag => l.start = l.pos
+  | .insideTag => l.start = l.pos
+  | .str q => l.start + 1 = l.pos ∧ (byteAt l.input l.start.toNat : Int) = q ∧ (q = 34 ∨ q = 39)
+  | _ => True
 
 /-- rank of a state while input remains (`pos < n`): states that may hand over to another
     state without consuming input rank above the states they hand over to -/
@@ -475,26 +566,82 @@ theorem phi_lt_of_same {n : Int} {s s' : St} {l l' : Lexer} (h : l'.pos = l.pos)
 /-- the last item sent is the EOF item or an Error item -/
 def EndsOK (l : Lexer) : Prop := ∃ it, l.items.back? = some it ∧ (it.typ = .tEOF ∨ it.typ = .tError)
 
+/-- an Error item of `errorfAt` stands where the construct it complains about begins: an
+    unclosed tag or literal at the `{` of the tag (position 0 for an expression, which has
+    no delimiter), a string at its opening quote, a block comment at `/*`, a soydoc comment
+    at `/**` -/
+def ErrItemOK (input : Array UInt8) (it : Item) : Prop :=
+  (it.val = [clsTag] ∨ it.val = [clsLiteral] → it.pos = 0 ∨ byteAt input it.pos = 123) ∧
+  (it.val = [clsString] → byteAt input it.pos = 34 ∨ byteAt input it.pos = 39) ∧
+  (it.val = [clsComment] → byteAt input it.pos = 47 ∧ byteAt input (it.pos + 1) = 42) ∧
+  (it.val = [clsSoyDoc] → byteAt input it.pos = 47 ∧ byteAt input (it.pos + 1) = 42 ∧ byteAt input (it.pos + 2) = 42)
+
+/-- the last item, if it is an Error item, is positioned as `ErrItemOK` says -/
+def ErrAt (l : Lexer) : Prop := ∀ it, l.items.back? = some it → it.typ = .tError → ErrItemOK l.input it
+
+theorem ErrItemOK.nil (input : Array UInt8) (p : Nat) : ErrItemOK input ⟨.tError, p, []⟩ :=
+  ⟨fun h => by rcases h with h | h <;> simp at h, fun h => by simp at h, fun h => by simp at h, fun h => by simp at h⟩
+
+/-- an unclosed tag / literal is reported at `tagStart` -/
+theorem tag_err {l : Lexer} {cls : UInt8} (ht : l.tagBad = 0) (h0 : 0 ≤ l.tagStart)
+    (hc : cls = clsTag ∨ cls = clsLiteral) : ErrItemOK l.input ⟨.tError, l.tagStart.toNat, [cls]⟩ := by
+  unfold Lexer.tagBad at ht
+  have hor : l.tagStart = 0 ∨ byteAt l.input l.tagStart.toNat = 123 := by
+    by_cases h : l.tagStart = 0 ∨ byteAt l.input l.tagStart.toNat = 123
+    · exact h
+    · rw [if_neg h] at ht; exact absurd ht (by decide)
+  refine ⟨fun _ => ?_, fun h => ?_, fun h => ?_, fun h => ?_⟩
+  · rcases hor with h | h
+    · left; show l.tagStart.toNat = 0; omega
+    · right; exact h
+  all_goals (rcases hc with rfl | rfl <;> simp [clsTag, clsLiteral, clsString, clsComment, clsSoyDoc] at h)
+
+theorem str_err {input : Array UInt8} {p : Nat} (h : byteAt input p = 34 ∨ byteAt input p = 39) :
+    ErrItemOK input ⟨.tError, p, [clsString]⟩ :=
+  ⟨fun h => by rcases h with h | h <;> simp [clsTag, clsLiteral, clsString] at h, fun _ => h,
+   fun h => by simp [clsComment, clsString] at h, fun h => by simp [clsSoyDoc, clsString] at h⟩
+
+theorem cmt_err {input : Array UInt8} {p : Nat} (h : byteAt input p = 47 ∧ byteAt input (p + 1) = 42) :
+    ErrItemOK input ⟨.tError, p, [clsComment]⟩ :=
+  ⟨fun h => by rcases h with h | h <;> simp [clsTag, clsLiteral, clsComment] at h,
+   fun h => by simp [clsComment, clsString] at h, fun _ => h, fun h => by simp [clsSoyDoc, clsComment] at h⟩
+
+theorem doc_err {input : Array UInt8} {p : Nat}
+    (h : byteAt input p = 47 ∧ byteAt input (p + 1) = 42 ∧ byteAt input (p + 2) = 42) :
+    ErrItemOK input ⟨.tError, p, [clsSoyDoc]⟩ :=
+  ⟨fun h => by rcases h with h | h <;> simp [clsTag, clsLiteral, clsSoyDoc] at h,
+   fun h => by simp [clsSoyDoc, clsString] at h, fun h => by simp [clsSoyDoc, clsComment] at h, fun _ => h⟩
+
 /-- what a state function must deliver: it returns (no panic); if it hands over to a next
     state, the invariant holds again and the measure went down; if it ends the scan (nil
     state), the last item it sent is EOF or Error -/
 def Post (n : Int) (s : St) (l : Lexer) (res : Option St × Lexer) : Prop :=
-  (∀ s', res.1 = some s' → Good n res.2 ∧ phi n s' res.2 < phi n s l) ∧
-  (res.1 = none → EndsOK res.2 ∧ (res.2.mp : Int) ≤ n ∧ res.2.badInit = 0)
+  (∀ s', res.1 = some s' → (Good n res.2 ∧ Extra s' res.2) ∧ phi n s' res.2 < phi n s l) ∧
+  (res.1 = none → EndsOK res.2 ∧ (res.2.mp : Int) ≤ n ∧ res.2.badInit = 0 ∧ ErrAt res.2) ∧
+  res.2.input = l.input
 
-theorem errorf_sat {n : Int} {s : St} {l0 l : Lexer} (h : l.pos ≤ n ∧ (l.mp : Int) ≤ n ∧ l.bad = 0) :
+theorem errorf_sat {n : Int} {s : St} {l0 l : Lexer} (h : l.pos ≤ n ∧ (l.mp : Int) ≤ n ∧ l.bad = 0) (hi : l.input = l0.input) :
     Sat (errorf l) (Post n s l0) := by
-  refine ⟨_, rfl, fun _ h => absurd h (by simp), fun _ => ⟨⟨{ typ := .tError, pos := l.pos.toNat, val := [] }, by simp, Or.inr rfl⟩, ?_, ?_⟩⟩
+  refine ⟨_, rfl, fun _ h => absurd h (by simp), fun _ => ⟨⟨{ typ := .tError, pos := l.pos.toNat, val := [] }, by simp, Or.inr rfl⟩, ?_, ?_, ?_⟩, hi⟩
   · simp only [mp_push']
     omega
   · rw [badInit_push']; exact h.2.2
+  · intro it hb _
+    simp only [Array.back?_push, Option.some.injEq] at hb
+    subst hb
+    exact ErrItemOK.nil _ _
 
-theorem errorfAt_sat {n : Int} {s : St} {l0 l : Lexer} {pos : Int} {cls : UInt8} (h : pos ≤ n ∧ (l.mp : Int) ≤ n ∧ l.bad = 0) :
+theorem errorfAt_sat {n : Int} {s : St} {l0 l : Lexer} {pos : Int} {cls : UInt8} (h : pos ≤ n ∧ (l.mp : Int) ≤ n ∧ l.bad = 0)
+    (hi : l.input = l0.input) (he : ErrItemOK l.input ⟨.tError, pos.toNat, [cls]⟩) :
     Sat (errorfAt l pos cls) (Post n s l0) := by
-  refine ⟨_, rfl, fun _ h => absurd h (by simp), fun _ => ⟨⟨{ typ := .tError, pos := pos.toNat, val := [cls] }, by simp, Or.inr rfl⟩, ?_, ?_⟩⟩
+  refine ⟨_, rfl, fun _ h => absurd h (by simp), fun _ => ⟨⟨{ typ := .tError, pos := pos.toNat, val := [cls] }, by simp, Or.inr rfl⟩, ?_, ?_, ?_⟩, hi⟩
   · simp only [mp_push']
     omega
   · rw [badInit_push']; exact h.2.2
+  · intro it hb _
+    simp only [Array.back?_push, Option.some.injEq] at hb
+    subst hb
+    exact he
 
 theorem emit_items {l l' : Lexer} {t : ItemType} (h : l.emit t = some l') :
     ∃ it, l'.items.back? = some it ∧ it.typ = t := by
@@ -508,9 +655,6 @@ theorem emit_items {l l' : Lexer} {t : ItemType} (h : l.emit t = some l') :
     exact ⟨{ typ := t, pos := (if l.pos > l.len then { l with pos := l.len } else l).pos.toNat, val := v },
       by simp, rfl⟩
 
-@[simp] theorem backup_input (l : Lexer) : l.backup.input = l.input := rfl
-@[simp] theorem ignore_input (l : Lexer) : l.ignore.input = l.input := rfl
-@[simp] theorem addPos_input (l : Lexer) (d : Int) : (l.addPos d).input = l.input := rfl
 
 /-- linear arithmetic over lexer positions, after normalising the record projections -/
 macro "lx" : tactic => `(tactic|
@@ -518,27 +662,27 @@ macro "lx" : tactic => `(tactic|
   | omega
   | ((try simp only [backup_pos, backup_start, backup_width, backup_input, ignore_pos, ignore_start,
       ignore_width, ignore_input, addPos_pos, addPos_start, addPos_width, addPos_input, backup_items, ignore_items,
-      addPos_items, backup_tagStart, ignore_tagStart, addPos_tagStart, Lexer.len, Lexer.mp, Lexer.bad, eof] at *) <;>
+      addPos_items, backup_tagStart, ignore_tagStart, addPos_tagStart, backup_tagBad, ignore_tagBad, addPos_tagBad, Lexer.len, Lexer.mp, Lexer.bad, eof] at *) <;>
     omega))
 
 theorem Post.of {n : Int} {s s' : St} {l l' : Lexer}
-    (hn : l'.len = n ∧ (l'.mp : Int) ≤ n ∧ 0 ≤ l'.tagStart ∧ l'.tagStart ≤ n ∧ l'.bad = 0) (h0 : 0 ≤ l'.start)
+    (hn : l'.len = n ∧ (l'.mp : Int) ≤ n ∧ 0 ≤ l'.tagStart ∧ l'.tagStart ≤ n ∧ l'.bad = 0 ∧ l'.tagBad = 0) (h0 : 0 ≤ l'.start)
     (h1 : l'.start ≤ l'.pos) (h2 : l'.pos ≤ n) (hle : l.pos ≤ l'.pos)
     (ha : l'.pos = l.pos → l.pos < n → rankA s' < rankA s)
-    (hb : l'.pos = l.pos → ¬ l.pos < n → rankB s' < rankB s) :
+    (hb : l'.pos = l.pos → ¬ l.pos < n → rankB s' < rankB s) (hx : Extra s' l') (hi : l'.input = l.input) :
     Post n s l (some s', l') := by
-  refine ⟨?_, fun h => absurd h (by simp)⟩
+  refine ⟨?_, fun h => absurd h (by simp), hi⟩
   intro s'' hs
   simp only [Option.some.injEq] at hs
   subst hs
-  refine ⟨⟨hn, h0, h1, h2⟩, ?_⟩
+  refine ⟨⟨⟨hn, h0, h1, h2⟩, hx⟩, ?_⟩
   by_cases h : l'.pos = l.pos
   · exact phi_lt_of_same h (ha h) (hb h)
   · exact phi_lt_of_adv (by simp only at h ⊢; omega) h2
 
-theorem Post.nil {n : Int} {s : St} {l l' : Lexer} (h : EndsOK l') (hm : (l'.mp : Int) ≤ n ∧ l'.badInit = 0) :
-    Post n s l (none, l') :=
-  ⟨fun _ h => absurd h (by simp), fun _ => ⟨h, hm.1, hm.2⟩⟩
+theorem Post.nil {n : Int} {s : St} {l l' : Lexer} (h : EndsOK l') (hm : (l'.mp : Int) ≤ n ∧ l'.badInit = 0)
+    (he : ErrAt l') (hi : l'.input = l.input) : Post n s l (none, l') :=
+  ⟨fun _ h => absurd h (by simp), fun _ => ⟨h, hm.1, hm.2, he⟩, hi⟩
 
 theorem lookup_snd_mem {α : Type} [BEq α] (k : α) : ∀ (l : List (α × ItemType)) (v : ItemType),
     l.lookup k = some v → v ∈ l.map (·.2) := by
@@ -584,11 +728,19 @@ macro "em" l:ident hl:ident hp:ident hs:ident hw:ident : tactic => `(tactic|
   (apply emit_sat (by lx) (by lx) (by lx) (by eok);
    intro $l $hl $hp $hs $hw))
 
+/-- `l'.input = l.input` from the frame facts in the context -/
+macro "inq" : tactic => `(tactic|
+  first | rfl | assumption | (simp only [backup_input, ignore_input, addPos_input, *]))
+
+/-- the entry condition `Extra s' l'` of the next state, when it is trivial or linear arithmetic -/
+macro "exq" : tactic => `(tactic|
+  first | trivial | (simp only [Extra]; first | trivial | lx))
+
 /-- `pure (some s', l')` at the end of a state function -/
 macro "fin" : tactic => `(tactic|
   (apply Sat.ret; apply Post.of (by lx) (by lx) (by lx) (by lx) (by lx)
     (by first | (intro _ _; decide) | (intro _ _; lx))
-    (by first | (intro _ _; decide) | (intro _ _; lx))))
+    (by first | (intro _ _; decide) | (intro _ _; lx)) (by exq) (by inq)))
 
 theorem sliceOf_sat {s : Array UInt8} {a b : Int} {Q : Bytes → Prop}
     (h0 : 0 ≤ a) (h1 : a ≤ b) (h2 : b ≤ s.size)
@@ -640,8 +792,8 @@ theorem stringsIndex_le (needle : Bytes) : ∀ (hay : Bytes) (i : Nat),
       omega
 
 theorem emitInside_sat {n : Int} {s : St} {l0 l : Lexer} {t : ItemType}
-    (hn : l.len = n ∧ (l.mp : Int) ≤ n ∧ 0 ≤ l.tagStart ∧ l.tagStart ≤ n ∧ l.bad = 0) (h0 : 0 ≤ l.start) (h1 : l.start ≤ l.pos) (h2 : l.pos ≤ n) (hadv : l0.pos < l.pos)
-    (hok : emitOK t (l.pos - l.start)) :
+    (hn : l.len = n ∧ (l.mp : Int) ≤ n ∧ 0 ≤ l.tagStart ∧ l.tagStart ≤ n ∧ l.bad = 0 ∧ l.tagBad = 0) (h0 : 0 ≤ l.start) (h1 : l.start ≤ l.pos) (h2 : l.pos ≤ n) (hadv : l0.pos < l.pos)
+    (hok : emitOK t (l.pos - l.start)) (hi0 : l.input = l0.input) :
     Sat (emitInside l t) (Post n s l0) := by
   unfold emitInside
   apply Sat.bind
@@ -650,17 +802,25 @@ theorem emitInside_sat {n : Int} {s : St} {l0 l : Lexer} {t : ItemType}
 
 /-! ## State functions -/
 
-theorem lexLeftDelim_ok {n : Int} {l : Lexer} (hg : Good n l) :
+theorem lexLeftDelim_ok {n : Int} {l : Lexer} (hg : Good n l) (hx : Extra .leftDelim l) :
     Sat (lexLeftDelim l) (Post n .leftDelim l) := by
   obtain ⟨hn, hs0, hsp, hpn⟩ := hg
   unfold lexLeftDelim
+  -- `l.tagStart = l.start`: lexText has seen the `{` that stands here
+  have ht0 : ({ l with tagStart := l.start } : Lexer).tagBad = 0 := by
+    simp only [Extra] at hx
+    unfold Lexer.tagBad
+    simp only
+    rw [if_pos (Or.inr (by rw [hx.1]; exact hx.2))]
   nx r1 l1 hl1 hs1 hf1
   nx r2 l2 hl2 hs2 hf2
   apply Sat.bind
   split
-  · em l3 hl3 hp3 hs3 hw3
+  · have ht2 : ({ l2 with doubleDelim := true } : Lexer).tagBad = l2.tagBad := rfl
+    em l3 hl3 hp3 hs3 hw3
     fin
-  · em l3 hl3 hp3 hs3 hw3
+  · have ht2 : ({ l2.backup with doubleDelim := false } : Lexer).tagBad = l2.tagBad := rfl
+    em l3 hl3 hp3 hs3 hw3
     fin
 
 theorem lexRightDelim_ok {n : Int} {l : Lexer} (hg : Good n l) :
@@ -672,7 +832,7 @@ theorem lexRightDelim_ok {n : Int} {l : Lexer} (hg : Good n l) :
   intro b l1 hl1 hs1 hp1 hle1
   dsimp only
   split
-  · exact errorf_sat (by lx)
+  · exact errorf_sat (by lx) (by inq)
   · apply Sat.bind
     em l2 hl2 hp2 hs2 hw2
     fin
@@ -687,14 +847,15 @@ theorem lexRightDelimEnd_ok {n : Int} {l : Lexer} (hg : Good n l) :
   intro b l2 hl2 hs2 hp2 hle2
   dsimp only
   split
-  · exact errorf_sat (by lx)
+  · exact errorf_sat (by lx) (by inq)
   · apply Sat.bind
     em l3 hl3 hp3 hs3 hw3
     fin
 
-theorem lexBeginTag_ok {n : Int} {l : Lexer} (hg : Good n l) :
+theorem lexBeginTag_ok {n : Int} {l : Lexer} (hg : Good n l) (hx : Extra .beginTag l) :
     Sat (lexBeginTag l) (Post n .beginTag l) := by
   obtain ⟨hn, hs0, hsp, hpn⟩ := hg
+  simp only [Extra] at hx
   unfold lexBeginTag
   apply Sat.bind
   apply peek_sat (by lx)
